@@ -39,6 +39,8 @@ THEOREMS = [
     "C15_frontends_agree_macro",
     "C15_frontends_agree_macro_order_dependent_refuted",
     "C15_macro_crates_complete",
+    "C15_map_type_verbatim",
+    "C15_cli_map_type_verbatim",
     "C15_macro_never_recorded",
     "C15_cli_default_builder_on",
     "C15_no_write_on_failure",
@@ -52,7 +54,9 @@ THEOREMS = [
 
 W = os.path.join(vlib.WORK, "c15")
 TARGET_REPO = os.path.join(vlib.WORK, "target-repo")
-CLI_BIN = os.path.join(TARGET_REPO, "debug", "cargo-typify")
+CLI_REPO = os.environ.get("C15_CLI_REPO", vlib.REPO)
+TARGET_CLI = TARGET_REPO if CLI_REPO == vlib.REPO else os.path.join(vlib.WORK, "target-repo-alt-cli")
+CLI_BIN = os.path.join(TARGET_CLI, "debug", "cargo-typify")
 # RUSTC_BOOTSTRAP=1 (needed for -Zunpretty) is a rerun-if-env-changed input of proc-macro2's build
 # script: sharing one target dir with the plain workspace build rebuilds ~20 crates on every switch.
 TARGET_EXPAND = os.path.join(vlib.WORK, "target-repo-expand" + (
@@ -67,7 +71,7 @@ ENV.pop("RUSTFLAGS", None)
 # withheld from / altered for ONE real front-end, which is what that front-end dropping or
 # mis-parsing the option would look like.  Values: cli-map-type-ignored, cli-no-builder-ignored,
 # cli-unknown-ignored, macro-derives-dropped, macro-patch-dropped, spec-rename-dropped, spec-star-is-never,
-# macro-impl-defaults-only-without-list, macro-never-crates-dropped.
+# macro-impl-defaults-only-without-list, macro-never-crates-dropped, cli-map-type-absolutised.
 EMU = os.environ.get("C15_EMULATE", "")
 
 
@@ -77,6 +81,11 @@ def emu_cli_flags(flags):
     while i < len(flags):
         f = flags[i]
         if EMU == "cli-map-type-ignored" and f == "--map-type":
+            i += 2
+            continue
+        if EMU == "cli-map-type-absolutised" and f == "--map-type":
+            v = flags[i + 1].strip()
+            out += [f, v if v.startswith("::") else "::" + v]
             i += 2
             continue
         if EMU == "cli-unknown-ignored" and f == "--unknown-crates":
@@ -125,10 +134,11 @@ def dec_u(txt):
 # --------------------------------------------------------------------------
 
 def build_cli(ctx):
-    """The real cargo-typify binary from /repo's working tree."""
+    """The real cargo-typify binary from /repo's working tree (C15_CLI_REPO=/path/to/copy points the
+    CLI leg at a copy of the repository: detection tests of changes to cargo-typify without editing /repo)."""
     with vlib.Lock("cargo-repo"):
         rc, out, err = vlib.sh(["cargo", "build", "--offline", "-p", "cargo-typify", "--bin", "cargo-typify",
-                                "--target-dir", TARGET_REPO], cwd=vlib.REPO, timeout=1800, env=ENV)
+                                "--target-dir", TARGET_CLI], cwd=CLI_REPO, timeout=1800, env=ENV)
     if rc != 0:
         raise vlib.HarnessBuildError("cargo-typify binary does not build:\n" + err[-4000:])
 
@@ -157,7 +167,7 @@ def cli_flags(o, with_crates=True):
         f.append("-B" if o.get("short") else "--no-builder")
     for d in o["derives"]:
         f += ["-a" if o.get("short") else "--additional-derive", d]
-    if o.get("map_type"):
+    if o.get("map_type") is not None:
         f += ["--map-type", o["map_type"]]
     if o.get("unknown"):
         f += ["--unknown-crates", o["unknown"]]
@@ -174,7 +184,7 @@ def spec_string(c):
 
 def builder_settings_json(o):
     s = {"struct_builder": o["struct_builder"], "derives": o["derives"], "crates": o["crates"]}
-    if o.get("map_type"):
+    if o.get("map_type") is not None:
         s["map_type"] = o["map_type"]
     if o.get("unknown"):
         s["unknown_crates"] = o["unknown"]
@@ -246,7 +256,7 @@ def macro_invocation(schema_path, o, order=None):
             else:
                 ents.append('"%s" = "%s"' % (c["name"], c["version"]))
         parts.append("crates = { %s }" % ", ".join(ents))
-    if o.get("map_type"):
+    if o.get("map_type") is not None:
         parts.append('map_type = "%s"' % o["map_type"])
     if o.get("patch"):
         ents = []
@@ -295,6 +305,8 @@ pub struct MyUuid;
 pub struct MyHand;
 pub struct MyId;
 pub struct MyTok;
+pub mod maps { pub use std::collections::BTreeMap as M; }
+pub use std::collections::BTreeMap as M;
 pub mod d { pub use schemars::JsonSchema as Js; }
 pub mod d2 { pub use schemars::JsonSchema as Js2; }
 """
@@ -425,11 +437,13 @@ def fixture_schemas():
     fx += sorted(os.path.join(SCHEMA_DIR, f) for f in os.listdir(SCHEMA_DIR) if f.endswith(".json"))
     fx.append(os.path.join(CORPUS, "xrt.json"))
     fx.append(os.path.join(CORPUS, "impls.json"))
+    fx.append(os.path.join(CORPUS, "mapsx.json"))
     return fx
 
 
 DERIVES = ["schemars::JsonSchema", "PartialEq", "Eq", "Hash", "PartialOrd", "Ord", "crate::d::Js"]
-MAP_TYPES = ["::std::collections::BTreeMap", "std::collections::BTreeMap", "::std::collections::HashMap"]
+MAP_TYPES = ["::std::collections::BTreeMap", "std::collections::BTreeMap", "::std::collections::HashMap",
+             "indexmap::IndexMap", "crate::maps::M", "super::M", "M"]
 CRATE_NAMES_PLAIN = ["crate-o-types", "x", "std", "other_crate"]
 CRATE_NAMES_DIGIT = ["base64", "my_util2"]
 RENAMES_PLAIN = ["ren", "my-ren", "cot_x"]
@@ -501,6 +515,27 @@ def crates_product(thorough, digits_ok):
     # two entries at once: a `!` crate next to a usable one
     add("xrt.json", crate_setting("crate-o-types", "never", "", "") + crate_setting("x", "star", "", ""), "allow")
     add("xrt.json", crate_setting("x", "never", "", "") + crate_setting("crate-o-types", "match+rename", "1.0.0", ""), "allow")
+    return out
+
+
+# map-type spellings: every one is handed VERBATIM to MapType::new (syn::parse_str::<syn::Type>) by all three
+# front-ends; on the unchanged tree all of these parse (surrounding blanks are not tokens), the INVALID ones make
+# MapType::new panic: builder panics, CLI exits 101 writing nothing, the macro reports `proc macro panicked`.
+MAP_SPELLINGS = ["::std::collections::BTreeMap", "std::collections::BTreeMap", "indexmap::IndexMap", "crate::maps::M",
+                 "self::M", "super::M", "M", " std::collections::BTreeMap ", "::indexmap::IndexMap"]
+MAP_SPELLINGS_INVALID = ["std::collections::BTreeMap::", ""]
+MAP_SCHEMAS = ["mapsx.json", "maps.json", "xrt.json"]      # typed additionalProperties, propertyNames, optional members
+
+
+def map_product(thorough):
+    out = []
+    for i, base in enumerate(MAP_SCHEMAS):
+        for j, m in enumerate(MAP_SPELLINGS):
+            if thorough or i == 0 or (i + j) % 3 == 0:
+                out.append((base, {"struct_builder": (i + j) % 2 == 0, "derives": [], "crates": [], "short": j % 2 == 1,
+                                   "map_type": m}))
+    for m in MAP_SPELLINGS_INVALID:
+        out.append(("mapsx.json", {"struct_builder": False, "derives": [], "crates": [], "short": False, "map_type": m}))
     return out
 
 
@@ -995,6 +1030,7 @@ def check_three_frontends(ctx, rnd, digits_defect, findings, unlisted):
         ("bad-version-2", 'typify::import_types!(schema = "%s", crates = { "r" = "x@" });' % xrt, "fail"),
         ("bad-policy", 'typify::import_types!(schema = "%s", unknown_crates = Sometimes);' % xrt, "fail"),
         ("rejected-schema", 'typify::import_types!(schema = "%s");' % os.path.join(CORPUS, "fail_default.json"), "fail"),
+        ("bad-map-type", 'typify::import_types!(schema = "%s", map_type = "std::collections::BTreeMap::");' % maps, "fail"),
         ("digit-names", 'typify::import_types!(schema = "%s", crates = { "r2" = "base64@0.21.0", "my_util2" = "0.5.0" });'
          % xrt, "ok"),
         ("unicode-name", 'typify::import_types!(schema = "%s", crates = { "été" = "x@*" });' % xrt, "ok"),
@@ -1087,6 +1123,8 @@ def check_three_frontends(ctx, rnd, digits_defect, findings, unlisted):
         ("impls.json", impls_case([["", "Hash"]], [])),
     ]
     curated += crates_product(not quick, not digits_defect)
+    for base, o in map_product(not quick):
+        curated.append((base, dict(o, cli_only=not macro_map_ok)))
     for base, o in curated:
         o = dict(o)
         o.setdefault("short", False)
@@ -1237,6 +1275,17 @@ def check_three_frontends(ctx, rnd, digits_defect, findings, unlisted):
     ctx.evaluations += len(mcases)
     ctx.samples = [{"schema": os.path.basename(c["schema"]), "options": c["o"],
                     "cli_flags": cli_flags(c["o"]) if c["cli_text"] is not None else None} for c in mcases[:10]]
+    map_cov = {}
+    for c in cases:
+        m = c["o"].get("map_type")
+        if m is not None:
+            e = map_cov.setdefault(m, {"builder_ok": 0, "builder_rejects": 0, "cli_compared": 0, "macro_compared": 0,
+                                       "occurrences_in_builder_tokens": 0})
+            e["builder_ok" if c["builder_ok"] else "builder_rejects"] += 1
+            e["cli_compared"] += 1 if c.get("cli_text") is not None else 0
+            e["macro_compared"] += 1 if c in mcases else 0
+            if c["builder_ok"] and m.strip():
+                e["occurrences_in_builder_tokens"] += c["builder_tokens"].count(m.strip().replace("::", " :: ").strip() + " <")
     product_cov = {}
     for c in mcases:
         txt = open(c["schema"]).read()
@@ -1270,7 +1319,7 @@ def check_three_frontends(ctx, rnd, digits_defect, findings, unlisted):
         "macro_cases": len(mcases), "all_three": n_three, "items_compared_cli": n_items, "distribution": dist,
         "macro_map_type_usable": macro_map_ok,
         "macro_cases_with_map_type": len([c for c in mcases if c["o"].get("map_type")]),
-        "crates_x_policy_product": product_cov}
+        "crates_x_policy_product": product_cov, "map_type_spellings": map_cov}
 
     # ---- duplicate original crate names in the macro's `crates` map
     mt = vlib.run_bin("c15", [{"op": "modtext", "path": exp_path, "modules": ["dup%d_macro" % k for k in range(n_dup)]}])[0]
